@@ -53,3 +53,60 @@ func connectedDuringTrim(value int) (reached, closedFresh bool, log []string) {
 	}
 	return
 }
+
+// flapDuringTrim: the same callback point, another event: a CONNECTED peer that was a candidate at the
+// scan (oldest, lowest value: first in line to be closed) loses its only connection and connects again
+// while the trim sorts. Its new connection is 0 ms old (grace 10 s): the trim must not close it, whatever
+// it remembers about the peer from the scan. Returns (reached, closedFresh, log).
+func flapDuringTrim(value int, early bool) (reached, closedFresh bool, log []string) {
+	cfg := caseCfg{Low: 1, High: 9, GraceMs: 10000, SilenceMs: 10000, ResMs: 3001, DecIntMs: [2]int64{3001, 6002}, DecSub: [2]int{1, 1}, BumpMax: 12}
+	g, err := newRig(cfg, false, nil, nil)
+	if err != nil {
+		return false, false, []string{err.Error()}
+	}
+	defer func() {
+		g.cm.Close()
+		synctest.Wait()
+	}()
+	synctest.Wait()
+	nf := g.rec.notifee
+	const pT, pA, pB = 4, 5, 6 // three different segments
+	ct, _ := g.connFor(op{P: pT, S: 0}, nil)
+	ca, _ := g.connFor(op{P: pA, S: 0}, nil)
+	cb, _ := g.connFor(op{P: pB, S: 0}, nil)
+	if early {
+		g.cm.TagPeer(peerIDs[pT], "a", value) // tagged before it connects
+	}
+	nf.Connected(nil, ct)
+	nf.Connected(nil, ca)
+	nf.Connected(nil, cb)
+	if !early {
+		g.cm.TagPeer(peerIDs[pT], "a", value)
+	}
+	log = append(log, "t=0 Connected(p4) Connected(p5) Connected(p6) TagPeer(p4,a,v)")
+	g.clk.Add(20 * time.Second)
+	synctest.Wait()
+	g.rec.takeEvents()
+	ct2, _ := g.connFor(op{P: pT, S: 1}, nil)
+	done := false
+	hook := func() {
+		if done {
+			return
+		}
+		done, reached = true, true
+		nf.Disconnected(nil, ct)
+		nf.Connected(nil, ct2)
+	}
+	ca.statHook.Store(&hook)
+	cb.statHook.Store(&hook)
+	log = append(log, "t=20s TrimOpenConns; Disconnected(p4,c0) + Connected(p4,c1) delivered from the Stat() callback of the sort")
+	g.cm.TrimOpenConns(context.Background())
+	synctest.Wait()
+	for _, e := range g.rec.takeEvents() {
+		log = append(log, "closed "+evString([]closeEvent{e}))
+		if e.Conn == ct2.id {
+			closedFresh = true
+		}
+	}
+	return
+}
